@@ -28,7 +28,7 @@ RULE = (
 ASSUMPTIONS = [
     "the rule list is the one restated in the property; pydsdl-specific extras (name length limit, _offset_ in unions) are avoided by the skeleton",
 ]
-MIN_MONITORS = {"verdict": 30000, "expected-accept": 10000, "expected-reject": 15000, "conserve-finalize": 60000}
+MIN_MONITORS = {"verdict": 30000, "expected-accept": 10000, "expected-reject": 15000, "conserve-finalize": 60000, "verdict-as-dependency": 5000}
 THOROUGH_MIN_SCALE = 10
 
 
@@ -561,6 +561,26 @@ def run_case(ctx, pydsdl, mons, seed, workdir):
             ctx.mon("expected-accept")
             if not accepted:
                 ctx.violation("C05/valid-rejected/" + (st.labels[0].split("-")[0] if st.labels else "skeleton"), "valid definition (%r) rejected: %r\n%s" % (st.labels, err, text), case)
+        # placement: the same definition first reached as a dependency of a valid definition that is read before it
+        is_service = st.service or len(st.sections) > 1 or any(sec.get("post_marker") for sec in st.sections)
+        if not is_service and seed % 3 == 0:
+            full = ".".join([st.root] + list(st.ns_dirs) + [st.short])
+            (root / "Aaa.1.0.dsdl").write_text("%suint8 before\n%s.%d.%d dep\n@extent 2 ** 60\n" % (
+                "@deprecated\n" if st.deprecated else "", full, st.version[0], st.version[1]))
+            ctx.mon("verdict-as-dependency")
+            try:
+                pydsdl.read_namespace(root, [], allow_unregulated_fixed_port_id=st.allow_unregulated)
+                accepted2, err2 = True, None
+            except pydsdl.InvalidDefinitionError as ex:
+                accepted2, err2 = False, ex
+            except Exception as ex:  # noqa
+                ctx.violation("C05/foreign-exception", "%s (as dependency): %r" % (st.labels, ex), case)
+                return st
+            if st.reject and accepted2:
+                ctx.violation("C05/invalid-accepted/" + st.reject[0].split("-")[0], "definition violating %r was accepted when first reached as a dependency:\n%s" % (st.reject, text), case)
+            if not st.reject and not accepted2:
+                ctx.violation("C05/valid-rejected/" + (st.labels[0].split("-")[0] if st.labels else "skeleton"),
+                              "valid definition (%r) rejected when first reached as a dependency: %r\n%s" % (st.labels, err2, text), case)
         return st
     finally:
         shutil.rmtree(base, ignore_errors=True)
